@@ -70,9 +70,13 @@ class CombineOutputs(Operation):
             # through a symbolic link (e.g., a package's outputs kept on other
             # storage), so the relative path is computed between the real
             # locations.
+            # The output directory's own name is kept as it is (the task may
+            # have replaced the directory with a link to where its results
+            # are): it is what identifies the link as made by combine().
             relative_to_target = pathlib.Path(
                 os.path.relpath(
-                    os.path.realpath(dep_dir), os.path.realpath(copy_into.parent)
+                    os.path.join(os.path.realpath(dep_dir.parent), dep_dir.name),
+                    os.path.realpath(copy_into.parent),
                 )
             )
             # (`exists()` follows links: a link to a version that is gone would
